@@ -27,7 +27,25 @@ func main() {
 	list := flag.Bool("list", false, "list properties with rules")
 	noFixtures := flag.Bool("no-fixtures", false, "skip the fixture guard (scratch-copy self-tests)")
 	selftest := flag.String("selftest", "", "JSON file with checker self-test results to embed in the evidence")
+	dumpFuncs := flag.Bool("dump-funcs", false, "print the inventory of module functions of -repo (reference for normalisation) and exit")
+	dumpSSA := flag.String("ssa", "", "pkg:func - print the SSA form of one function as the rules see it (after normalisation) and exit")
+	noNorm := flag.Bool("no-normalise", false, "do not expand functions that are missing from the inventory")
 	flag.Parse()
+	if *dumpFuncs {
+		p, err := core.Load(*repo, 20)
+		if err != nil {
+			fmt.Fprintf(os.Stderr, "BROKEN: %v\n", err)
+			os.Exit(2)
+		}
+		fmt.Println("# reference inventory of function declarations (pkgpath Name | pkgpath Recv.Name); regenerate with wharfcheck -dump-funcs")
+		for _, k := range p.Inventory() {
+			fmt.Println(k)
+		}
+		return
+	}
+	if !*noNorm {
+		core.InventoryFile = *verif + "/baseline_funcs.txt"
+	}
 
 	if *list {
 		var ids []string
@@ -66,6 +84,24 @@ func main() {
 		}
 		*prop, replayKey = r.Property, r.Key
 		*noEvidence = true
+	}
+	if *dumpSSA != "" {
+		p, err := core.Load(*repo, 20)
+		if err != nil {
+			fmt.Fprintf(os.Stderr, "BROKEN: %v\n", err)
+			os.Exit(2)
+		}
+		printNorm(p)
+		parts := strings.SplitN(*dumpSSA, ":", 2)
+		fn := p.Fn(parts[0], parts[1])
+		if fn == nil {
+			fmt.Println("not found")
+			os.Exit(2)
+		}
+		for _, f := range core.WithAnons(fn) {
+			f.WriteTo(os.Stdout)
+		}
+		return
 	}
 	if *prop == "all" {
 		// convenience for scratch copies: every property on one load, no evidence, summary only
@@ -179,6 +215,7 @@ func runAll(repo, verif string) int {
 	}
 	sort.Strings(ids)
 	rc := 0
+	printNorm(p)
 	for _, id := range ids {
 		c := core.NewCtx(p, id, "quick")
 		func() {
@@ -203,4 +240,17 @@ func runAll(repo, verif string) int {
 		}
 	}
 	return rc
+}
+
+func printNorm(p *core.Prog) {
+	if p.Norm == nil || len(p.Norm.NewFuncs) == 0 {
+		return
+	}
+	fmt.Printf("normalisation: %d functions not in the inventory, %d calls expanded, %d left as calls\n", len(p.Norm.NewFuncs), len(p.Norm.Sites), len(p.Norm.Skips))
+	for _, s := range p.Norm.Skips {
+		fmt.Printf("  not expanded: %s -> %s (%s)\n", s.Caller, s.Callee, s.Reason)
+	}
+	for _, s := range p.Norm.Notes {
+		fmt.Printf("  note: %s\n", s)
+	}
 }
